@@ -114,6 +114,8 @@ impl ConnBuffer {
         }
 
         let size = left as usize * right as usize * 2;
+        // cells the text does not list are 0, also when an earlier matrix was read into this buffer
+        self.matrix.clear();
         self.matrix.resize(size, 0);
         self.num_left = left;
         self.num_right = right;
